@@ -9,6 +9,7 @@ currently holds; every access path must return that very object, a row that does
 SELECT) must never be handed out, unpickling must not produce a second live instance.
 """
 import gc
+import time
 import json
 import os
 import pickle
@@ -1089,7 +1090,8 @@ def tx_env(do_cache):
 
 
 def execute_tx(do_cache, steps):
-    """steps: 'read-rollback' | 'empty-commit' | 'empty-rollback' | 'second-connection' | 'gc'.  Oracle: on a
+    """steps: 'read-rollback' | 'empty-commit' | 'empty-rollback' | 'second-connection' | 'gc' | 'tx-commit' |
+    'tx-commit-begin' (the last two end the case).  Oracle: on a
     NON-DEFAULT connection (a transaction, a second connection object on the same database) every access path --
     get, byName, eager select, lazyColumns select, foreign key, join -- hands out the instances of THAT connection's
     identity map (bound to it, one per row, never the default connection's); on the default connection every access
@@ -1112,9 +1114,12 @@ def execute_tx(do_cache, steps):
                 if not f():
                     fails.append('%s: %s does not return the held instance' % (tag, what))
 
-        def on_connection(c, tag):
+        def on_connection(c, tag, held=None):
             t = O.get(oid, connection=c)
             tp = P.get(pid, connection=c)
+            if held is not None and (t is not held[0] or tp is not held[1]):
+                fails.append('%s: get(connection=) does not return the instance the application still holds from '
+                             'before' % tag)
             if t is owner or tp is pet:
                 fails.append("%s: get(connection=) hands out the default connection's instance" % tag)
             if t._connection is not c or tp._connection is not c:
@@ -1135,6 +1140,7 @@ def execute_tx(do_cache, steps):
                 if got is not tp:
                     fails.append("%s: %s yields %s, not the instance get(connection=) gives" % (
                         tag, what, "the default connection's instance" if got is pet else 'another object'))
+            return t, tp
         paths('before')
         for st in steps:
             if st == 'gc':
@@ -1146,6 +1152,24 @@ def execute_tx(do_cache, steps):
                 paths('after second-connection')
                 continue
             trans = conn.transaction()
+            if st in ('tx-commit', 'tx-commit-begin'):
+                # the transaction's own identity map survives its commit (and a close + begin): the instances the
+                # application holds from the transaction stay THE instances of their rows on it.  (The parent's
+                # instances of rows the transaction touched are expired by the commit -- by design, the E1 class --
+                # so the case ends here.)
+                held = on_connection(trans, 'transaction')
+                if st == 'tx-commit':
+                    trans.commit()
+                else:
+                    trans.commit(close=True)
+                    trans.begin()
+                gc.collect()
+                on_connection(trans, 'transaction after %s' % ('commit()' if st == 'tx-commit' else 'commit(close=True) + begin()'),
+                              held=held)
+                del held
+                trans.rollback()
+                del trans
+                break
             if st.startswith('read'):
                 on_connection(trans, 'transaction')
             if st.endswith('rollback'):
@@ -1160,7 +1184,7 @@ def execute_tx(do_cache, steps):
 
 
 # (a COMMITTED transaction that touched the row expires it in the parent's cache by design: the E1 class, C07/C08's subject)
-TX_STEPS = ('read-rollback', 'empty-commit', 'empty-rollback', 'second-connection', 'gc')
+TX_STEPS = ('read-rollback', 'empty-commit', 'empty-rollback', 'second-connection', 'gc', 'tx-commit', 'tx-commit-begin')
 
 
 def run_tx(ctx, reported):
@@ -1186,6 +1210,109 @@ def run_tx(ctx, reported):
 def replay_tx(case):
     fails = execute_tx(case['doCache'], tuple(case['steps']))
     return (not fails), '\n'.join(['cache=%s transaction steps %s' % (bool(case['doCache']), case['steps'])] +
+                                  ['ORACLE FAILURE: ' + f for f in fails] + ([] if fails else ['oracle: no failure']))
+
+
+# ---- two threads load the same uncached row: the put/finishPut protocol must give both the same instance --------------
+def execute_threads(do_cache, second_look_delay=True):
+    """thread 1 is inside `_init` (its SELECT done, the class cache lock held from the miss until finishPut) when thread 2
+    asks for the same row and queues up on the lock; oracle: both get ONE instance, `get` afterwards returns it, nobody
+    is left blocked.  Deterministic: `_init` waits for the contention, a wrapper around the lock signals it."""
+    import threading
+    sqlo.setup()
+    from sqlobject import SQLObject, StringCol
+    conn = sqlo.file_conn(_scratch_db(), cache=bool(do_cache))
+    contended = threading.Event()
+    first = []
+
+    def _init(self, *args, **kw):
+        SQLObject._init(self, *args, **kw)
+        if not first and threading.current_thread() is not threading.main_thread():
+            first.append(threading.current_thread())
+            contended.wait(5)
+
+    A = type(sqlo.uniq('C04TH'), (SQLObject,), {'_connection': conn, '__module__': __name__, 'name': StringCol(),
+                                                '_init': _init})
+
+    class Watched(object):
+        def __init__(self, lock):
+            self._lock = lock
+
+        def acquire(self, *a):
+            if self._lock.locked():
+                contended.set()
+            return self._lock.acquire(*a)
+
+        def release(self):
+            return self._lock.release()
+
+        def locked(self):
+            return self._lock.locked()
+
+    fails = []
+    try:
+        A.createTable()
+        t = A.sqlmeta.table
+        conn.query("INSERT INTO %s (id, name) VALUES (1, 'one')" % t)
+        conn.query("INSERT INTO %s (id, name) VALUES (2, 'two')" % t)
+        warm = A.get(2)                       # creates the class's factory
+        fac = conn.cache.caches[A.__name__]
+        fac.lock = Watched(fac.lock)
+        got = {}
+
+        def loader(k):
+            try:
+                got[k] = A.get(1)
+            except Exception as exc:
+                got[k] = exc
+        t1 = threading.Thread(target=loader, args=('t1',))
+        t1.start()
+        for _ in range(500):
+            if first:
+                break
+            time.sleep(0.01)
+        t2 = threading.Thread(target=loader, args=('t2',))
+        t2.start()
+        t1.join(20)
+        t2.join(20)
+        a1, a2 = got.get('t1'), got.get('t2')
+        if t1.is_alive() or t2.is_alive() or a1 is None or a2 is None:
+            fails.append('a loader thread is blocked')
+        elif isinstance(a1, Exception) or isinstance(a2, Exception):
+            fails.append('a loader thread raised %s' % sqlo.exc_name(a1 if isinstance(a1, Exception) else a2))
+        else:
+            if a1 is not a2:
+                fails.append('two threads loading one uncached row got two live instances')
+            if A.get(1) is not a1:
+                fails.append('get() afterwards does not return the instance the first loader holds')
+            if fac.lock.locked():
+                fails.append('the class cache lock is still held')
+        del warm
+    except Exception as exc:
+        fails.append('exception %s' % sqlo.exc_name(exc))
+    finally:
+        try:
+            conn.close()
+        except Exception:
+            pass
+    return fails
+
+
+def run_threads(ctx, reported):
+    for do_cache in (1, 0):
+        fails = execute_threads(do_cache)
+        ctx.case(('threads', do_cache), nontrivial=True, kind='two loader threads cache=%d' % do_cache)
+        if fails:
+            key = 'C04:threads:two-loaders-one-row'
+            if key not in reported:
+                reported.add(key)
+                ctx.oracle_fail(key, '%s (cache=%s; thread 2 asks for the row while thread 1 is inside _init holding the '
+                                'class cache lock)' % (fails[0], bool(do_cache)), {'threads': True, 'doCache': do_cache})
+
+
+def replay_threads(case):
+    fails = execute_threads(case['doCache'])
+    return (not fails), '\n'.join(['cache=%s two loader threads, one uncached row' % bool(case['doCache'])] +
                                   ['ORACLE FAILURE: ' + f for f in fails] + ([] if fails else ['oracle: no failure']))
 
 
@@ -1250,6 +1377,8 @@ def run(ctx):
             report_inh(ctx, cfg, hist, reported)
     # 2c. transactions (oracle only): a Transaction has an identity map of its own, whatever the connection's cache setting
     run_tx(ctx, reported)
+    # 2d. two threads, one uncached row (oracle only; every interleaving is C09's subject)
+    run_threads(ctx, reported)
     # 3. correspondence: all histories through the model driver in one call
     lines = []
     for cfg, hist, w, stream in worlds:
@@ -1283,6 +1412,8 @@ def run(ctx):
 
 
 def replay(case):
+    if case.get('threads'):
+        return replay_threads(case)
     if case.get('transaction'):
         return replay_tx(case)
     cfg = (case['cfg']['doCache'], case['cfg']['cullFrequency'], case['cfg']['cullFraction'])
